@@ -30,6 +30,11 @@ class DocGen:
         name = r.choice(LOCALS)
         if prefixes and r.random() < 0.4:
             name = r.choice(prefixes) + ":" + name
+        # namespace declarations supplied by attribute-list defaults for this element type (not written in the tag)
+        for pfx, uri in getattr(self, "nsdef_map", {}).get(name, {}).items():
+            if pfx not in decls:
+                sc[pfx] = uri
+        prefixes = [p for p, u in sc.items() if p != "" and u != ""]
         attrs = []
         seen = set()
         for _ in range(r.choice([0, 0, 1, 1, 2])):
@@ -45,7 +50,7 @@ class DocGen:
             if an.endswith("lang"):
                 val = r.choice(["en", "en-US", "EN", "de", ""])
             else:
-                val = r.choice(["1", "2", "v", " w ", "10", "é", "a b"])
+                val = r.choice(["1", "2", "v", " w ", "10", "é", "a b"] + (["&e2;", "a&e2;b"] if getattr(self, "dtd_on", False) else []))
             attrs.append((an, val))
         kids = []
         if depth < self.max_depth:
@@ -55,6 +60,8 @@ class DocGen:
                     t = r.choice(TEXTS)
                     if t == "&e1;" and not self.dtd_on:
                         t = "t"
+                    elif t == "&e1;" and r.random() < 0.5:
+                        t = "&e2;"
                     kids.append(("t", t))
                 elif k < 0.38:
                     kids.append(("C", r.choice(["c", "", " k "])))
@@ -69,8 +76,12 @@ class DocGen:
         self.dtd_on = self.dtd and r.random() < 0.35
         # a namespace declaration may be supplied by an attribute-list default (Namespaces in XML, section 3)
         nsdef = {}
+        self.nsdef_map = {}
         if self.dtd_on and self.ns and r.random() < 0.4:
             nsdef[r.choice(["p", "q", "z", ""])] = r.choice(URIS)
+        if self.dtd_on and self.ns and r.random() < 0.5:
+            # ... and for an element type that occurs anywhere in the document, with or without written attributes
+            self.nsdef_map[r.choice(LOCALS)] = {r.choice(["z", "p", ""]): r.choice(URIS)}
         root = self.element(0, nsdef)
         heads = [("P", "pi", "h")] if r.random() < 0.2 else []
         if r.random() < 0.15:
@@ -78,9 +89,13 @@ class DocGen:
         tails = [("C", "end")] if r.random() < 0.15 else []
         dtd = None
         if self.dtd_on:
-            dtd = "<!ENTITY e1 'E  1'>"
+            dtd = "<!ENTITY e1 'E  1'><!ENTITY e2 'x\ty\nz'>"
             for pfx, uri in nsdef.items():
                 dtd += "<!ATTLIST %s xmlns%s CDATA '%s'>" % (root[1], (":" + pfx) if pfx else "", uri)
+            for en, m in self.nsdef_map.items():
+                for pfx, uri in m.items():
+                    if not (en == root[1] and pfx in nsdef):
+                        dtd += "<!ATTLIST %s xmlns%s CDATA %s'%s'>" % (en, (":" + pfx) if pfx else "", r.choice(["", "#FIXED "]), uri)
             if self.defaults:
                 dtd += "<!ATTLIST %s dflt CDATA 'dv' n NMTOKENS ' 1  2 '>" % root[1]
         return {"root": root, "heads": heads, "tails": tails, "dtd": dtd}
